@@ -78,6 +78,8 @@ fn roots() -> Vec<Root> {
         // wrappers of wrappers: their target is itself an alias
         r!(Box<Rc<u8>>, 0), r!(&'static Box<u8>, 0), r!(Arc<String>, 3), r!(Box<Vec<u8>>, 4),
         r!(Quantity<Metres>), r!(Quantity<Feet>), r!(Documented), r!(bitvec::vec::BitVec<u8, bitvec::order::Lsb0>), r!(bitvec::vec::BitVec<u16, bitvec::order::Msb0>), r!([Documented; 5]), r!((Documented, u8, Rec)),
+        // the PhantomData placeholder as a type argument / element type: it is a registered type like any other there
+        r!(G<PhantomData<u8>>), r!(Option<PhantomData<bool>>), r!(Vec<PhantomData<Rec>>),
     ]
 }
 
